@@ -327,14 +327,17 @@ func gsv[T int](c containers.Container[T]) []any {
 		}
 		return 0
 	})
+	// comparators are only required to answer negative / zero / positive: differences of any magnitude, and a descending one
+	m := containers.GetSortedValuesFunc[T](c, func(x, y T) int { return int(x-y) * 3 })
+	d := containers.GetSortedValuesFunc[T](c, func(x, y T) int { return int(y-x) * 5 })
 	out := []any{}
 	for i, v := range a {
-		if i >= len(b) || b[i] != v {
-			out = append(out, -12345) // disagreement between the two helpers
+		if i >= len(b) || b[i] != v || i >= len(m) || m[i] != v || i >= len(d) || d[len(d)-1-i] != v {
+			out = append(out, -12345) // disagreement between the helpers
 		}
 		out = append(out, int(v))
 	}
-	if len(a) != len(b) {
+	if len(a) != len(b) || len(a) != len(m) || len(a) != len(d) {
 		out = append(out, -12345)
 	}
 	return out
